@@ -769,6 +769,8 @@ enum Sink {
     Rec(Store, usize),      // recording writer: store, entries already seen
     File(Tail),             // FileLogWriter (additional or primary)
     Sock(UnixDatagram),     // SyslogWriter
+    // Logger::log_to_buffer: the memory buffer, read through LoggerHandle::update_snapshot (handle slot filled after build)
+    Buf(Arc<Mutex<Option<LoggerHandle>>>, flexi_logger::Snapshot, Vec<usize>),
 }
 struct Output {
     name: String, // writer name, or "file" "pw" "err" "out"
@@ -889,6 +891,7 @@ fn run_scenario(sc: &Value, env: &mut Env) -> usize {
     let wcfg: Vec<Value> = cfg["writers"].as_array().cloned().unwrap_or_default();
     let spec0 = &cfg["spec0"];
     let mut build_err: Option<String> = None;
+    let bufslot: Arc<Mutex<Option<LoggerHandle>>> = Arc::new(Mutex::new(None));
     let built = catch_unwind(AssertUnwindSafe(|| -> Result<(Box<dyn Log>, LoggerHandle), String> {
         let mut lg = Logger::with(spec_of(gi(spec0, "dflt", 3), gi(spec0, "m", -1)))
             .error_channel(ErrorChannel::File(errfile.clone()))
@@ -994,7 +997,16 @@ fn run_scenario(sc: &Value, env: &mut Env) -> usize {
         };
         let has_file = primary == "file" || primary == "both";
         let has_pw = primary == "pw" || primary == "both";
+        if primary == "buffer" {
+            outputs.push(Output {
+                name: "pw".into(),
+                fmt: gs(cfg, "fpw", "id").into(),
+                le: "",
+                sink: Some(Sink::Buf(bufslot.clone(), flexi_logger::Snapshot::new(), Vec::new())),
+            });
+        }
         lg = match primary.as_str() {
+            "buffer" => lg.log_to_buffer(gi(cfg, "bufmax", 1 << 20) as usize, Some(fmt_by_name(gs(cfg, "fpw", "id")))),
             "file" => lg.log_to_file(fs),
             "pw" => lg.log_to_writer(pw()),
             "both" => lg.log_to_file_and_writer(fs, pw()),
@@ -1031,6 +1043,9 @@ fn run_scenario(sc: &Value, env: &mut Env) -> usize {
             (None, None)
         }
     };
+    if let Ok(mut g) = bufslot.lock() {
+        *g = handle.clone();
+    }
     LOGGER.with(|l| *l.borrow_mut() = logger.clone());
     let tname = std::thread::current()
         .name()
@@ -1040,7 +1055,9 @@ fn run_scenario(sc: &Value, env: &mut Env) -> usize {
         "ev": "Begin", "cfg": cfg.clone(), "origin": sc.get("origin").cloned().unwrap_or(json!("")),
         "ret": build_err.clone().unwrap_or_else(|| "ok".to_string()),
         "norm": {
-            "kind": kind, "writers": wcfg, "primary": primary, "dupe": gi(cfg, "dupe0", 0),
+            // (the memory buffer is a LogWriter in the place of the primary writer)
+            "kind": kind, "writers": wcfg, "primary": if primary == "buffer" { "pw" } else { primary.as_str() },
+            "buffer": primary == "buffer", "bufmax": gi(cfg, "bufmax", 1 << 20), "dupe": gi(cfg, "dupe0", 0),
             "dupo": gi(cfg, "dupo0", 0), "spec": {"dflt": gi(spec0, "dflt", 3), "m": gi(spec0, "m", -1)},
             "mode": mode, "crlf": crlf, "tick": tick, "thread": tname,
             "le": hex(le.as_bytes()),
@@ -1070,6 +1087,28 @@ fn run_scenario(sc: &Value, env: &mut Env) -> usize {
                     let v: Vec<Vec<u8>> = st[*seen..].to_vec();
                     *seen = st.len();
                     v
+                }
+                Some(Sink::Buf(slot, snap, lens)) => {
+                    // what the record added: the text behind the previous snapshot if nothing was evicted,
+                    // else the last line
+                    let before = snap.text.clone();
+                    let upd = slot
+                        .lock()
+                        .ok()
+                        .and_then(|g| g.as_ref().map(|hd| hd.update_snapshot(snap)))
+                        .and_then(|r| r.ok())
+                        .unwrap_or(false);
+                    if upd {
+                        *lens = snap.text.split_terminator('\n').map(|x| x.len()).collect();
+                        let t = snap.text.strip_suffix('\n').unwrap_or(&snap.text);
+                        let add = match t.strip_prefix(before.as_str()) {
+                            Some(a) if !before.is_empty() || !t.contains('\n') => a,
+                            _ => t.rsplit('\n').next().unwrap_or(""),
+                        };
+                        vec![add.as_bytes().to_vec()]
+                    } else {
+                        Vec::new()
+                    }
                 }
                 Some(Sink::Sock(sock)) => {
                     let mut v = Vec::new();
@@ -1328,6 +1367,13 @@ fn run_scenario(sc: &Value, env: &mut Env) -> usize {
                         outs.push(x);
                     }
                     ev["outs"] = json!(outs);
+                    for o in &outputs {
+                        if let Some(Sink::Buf(_, _, lens)) = &o.sink {
+                            // the memory buffer after the call: byte lengths of its lines, oldest first (BufW.tla)
+                            ev["snap"] = json!(lens);
+                            ev["bufmax"] = json!(gi(cfg, "bufmax", 1 << 20));
+                        }
+                    }
                     hh.set_clock(t + 10);
                 }
                 r
